@@ -3,6 +3,7 @@
 package hubx
 
 import (
+	"net"
 	"crypto/tls"
 	"fmt"
 	"strings"
@@ -126,7 +127,8 @@ type Node struct {
 	Cert    tls.Certificate
 	App     *App
 	Hub     *hub.Hub
-	Mdns    *mdns.MdnsManager
+	Mdns    *mdns.MdnsManager // nil for a node built with NewNodeSimpleMdns
+	Simple  *SimpleMdns
 	Local   *api.ServiceDetails
 	Started bool
 }
@@ -154,4 +156,123 @@ func NewNode(name string, certIdx, port int) *Node {
 func (n *Node) Start() {
 	n.Started = true
 	n.Hub.Start()
+}
+
+// ---- SimpleMdns: a second, legitimate implementation of api.MdnsInterface ----
+//
+// The hub only knows the interface (its own unit tests use mocks of it). SimpleMdns is an in-memory
+// implementation that answers RequestMdnsEntries synchronously (the callback runs before the call returns) and
+// reports appearing / disappearing services on a goroutine of its own; announcing an already announced service
+// is a no-op. The hub must work with it just as with the MdnsManager.
+type SimpleMdns struct {
+	ski, id, name string
+	port          int
+	cb            api.MdnsReportInterface
+	announced     bool
+	register      bool
+	started       bool
+}
+
+type simpleEther struct {
+	nodes   []*SimpleMdns
+	entries map[string]*api.MdnsEntry
+}
+
+func ether() *simpleEther {
+	return simrt.Local("hubx.simplemdns", func() any { return &simpleEther{entries: map[string]*api.MdnsEntry{}} }).(*simpleEther)
+}
+
+func (m *SimpleMdns) view() map[string]*api.MdnsEntry {
+	out := map[string]*api.MdnsEntry{}
+	for k, e := range ether().entries {
+		if k == m.ski {
+			continue
+		}
+		c := *e
+		c.Addresses = append([]net.IP(nil), e.Addresses...)
+		out[k] = &c
+	}
+	return out
+}
+
+func (m *SimpleMdns) notifyOthers() {
+	for _, o := range ether().nodes {
+		if o != m && o.started && o.cb != nil {
+			o := o
+			simrt.Go("simplemdns.notify", func() { o.cb.ReportMdnsEntries(o.view(), true) })
+		}
+	}
+}
+
+// Start announces the service (like MdnsManager.Start) and delivers what is visible already.
+func (m *SimpleMdns) Start(cb api.MdnsReportInterface) error {
+	m.cb = cb
+	m.started = true
+	e := ether()
+	e.nodes = append(e.nodes, m)
+	m.announced = false
+	_ = m.AnnounceMdnsEntry()
+	simrt.Go("simplemdns.notify", func() { cb.ReportMdnsEntries(m.view(), true) })
+	return nil
+}
+
+func (m *SimpleMdns) Shutdown() {
+	m.UnannounceMdnsEntry()
+	m.started = false
+}
+
+func (m *SimpleMdns) AnnounceMdnsEntry() error {
+	simrt.Yield("simplemdns.Announce")
+	if m.announced || !m.started {
+		return nil
+	}
+	m.announced = true
+	ether().entries[m.ski] = &api.MdnsEntry{Name: m.name, Ski: m.ski, Identifier: m.id, Path: "/ship/", Register: m.register,
+		Host: "localhost", Port: m.port, Addresses: []net.IP{net.IPv4(127, 0, 0, 1)}}
+	m.notifyOthers()
+	return nil
+}
+
+func (m *SimpleMdns) UnannounceMdnsEntry() {
+	simrt.Yield("simplemdns.Unannounce")
+	if !m.announced {
+		return
+	}
+	m.announced = false
+	delete(ether().entries, m.ski)
+	m.notifyOthers()
+}
+
+func (m *SimpleMdns) SetAutoAccept(b bool) {
+	m.register = b
+	if e := ether().entries[m.ski]; e != nil {
+		e.Register = b
+	}
+}
+
+func (m *SimpleMdns) QRCodeText() string { return "" }
+
+func (m *SimpleMdns) RequestMdnsEntries() {
+	simrt.Yield("simplemdns.Request")
+	if m.cb != nil && m.started {
+		m.cb.ReportMdnsEntries(m.view(), false)
+	}
+}
+
+var _ api.MdnsInterface = (*SimpleMdns)(nil)
+
+// NewNodeSimpleMdns builds a node whose hub uses SimpleMdns instead of the MdnsManager.
+func NewNodeSimpleMdns(name string, certIdx, port int) *Node {
+	tc := testCerts[certIdx]
+	c, err := tls.X509KeyPair([]byte(tc.Cert), []byte(tc.Key))
+	if err != nil {
+		panic(err)
+	}
+	n := &Node{Name: name, SKI: tc.SKI, Port: port, Cert: c, App: &App{Name: name, AllowWaiting: true}}
+	n.Local = api.NewServiceDetails(tc.SKI)
+	n.Local.SetShipID("shipid-" + name)
+	n.Local.SetDeviceType("EnergyManagementSystem")
+	n.Simple = &SimpleMdns{ski: tc.SKI, id: "shipid-" + name, name: "svc-" + name, port: port}
+	n.Hub = hub.NewHub(n.App, n.Simple, port, c, n.Local)
+	return n
 }
